@@ -272,3 +272,112 @@ Proof.
   assert (T : total_qubits (reverse_qubits p) = total_qubits p) by (unfold reverse_qubits; apply total_qubits_map_qubits).
   split; [exists o1; split; [exact E1|congruence]|exists o2; split; [exact E2|split; [exact Ho|congruence]]].
 Qed.
+
+(* ---------- remove_measurements / remove_barriers / remove_includes ---------- *)
+Definition same_regs (a b : renv) : Prop := e_q a = e_q b /\ e_c a = e_c b.
+
+Lemma op_ok_ext n : forall stm a b, (sdepth stm < n)%nat -> same_regs a b -> op_ok a stm = op_ok b stm.
+Proof.
+  induction n as [|n IH]; intros stm a b Hd [Eq Ec]; [lia|].
+  destruct stm; try reflexivity; try (cbn [op_ok]; rewrite ?Eq, ?Ec; reflexivity).
+  (* conditional *)
+  cbn [op_ok]. rewrite !op_ok_block. cbn [sdepth] in Hd. rewrite (sdepth_block then_), (sdepth_block else_) in Hd.
+  assert (Hb : forall l, (ldepth l < n)%nat -> forallb (op_ok a) l = forallb (op_ok b) l).
+  { induction l as [|x l IHl]; intros Hl; [reflexivity|]. unfold ldepth in Hl. cbn [fold_right] in Hl. fold (ldepth l) in Hl.
+    cbn [forallb]. rewrite (IH x a b) by (try lia; split; assumption). rewrite IHl by lia. reflexivity. }
+  destruct cond; try reflexivity. destruct cond2; try reflexivity.
+  unfold cond_ok. rewrite !Ec, (Hb then_), (Hb else_) by lia. reflexivity.
+Qed.
+
+Lemma rk_block (k : kind) (l : list stmt) :
+  (fix go (l : list stmt) : list stmt := match l with [] => [] | x :: l' => rk k x ++ go l' end) l = remove_kind k l.
+Proof. induction l as [|x l IH]; [reflexivity|]. cbn [remove_kind]. now rewrite IH. Qed.
+Lemma empty_if_block (l : list stmt) :
+  (fix go (l : list stmt) : bool := match l with [] => false | x :: l' => stmt_empty_if x || go l' end) l = existsb stmt_empty_if l.
+Proof. induction l as [|x l IH]; [reflexivity|]. cbn [existsb]. now rewrite IH. Qed.
+
+(* removing a kind of statement from a well-formed operation leaves well-formed operations, unless it empties an if-block *)
+Lemma rk_op_ok k n : forall stm env, (sdepth stm < n)%nat -> op_ok env stm = true ->
+  existsb stmt_empty_if (rk k stm) = false -> forallb (op_ok env) (rk k stm) = true.
+Proof.
+  induction n as [|n IH]; intros stm env Hd Hok He; [lia|].
+  destruct stm; try discriminate Hok; cbn [rk] in *;
+    try (destruct (is_kind k _); [reflexivity|cbn [forallb]; now rewrite Hok]).
+  (* conditional *)
+  rewrite !rk_block in *. cbn [existsb stmt_empty_if] in He. rewrite orb_false_r in He.
+  cbn [op_ok] in Hok. rewrite !op_ok_block in Hok.
+  destruct cond; try discriminate Hok. destruct cond2; try discriminate Hok.
+  apply andb_true_iff in Hok as [Hok Hel]. apply andb_true_iff in Hok as [Hok Ht]. apply andb_true_iff in Hok as [Hok Hne].
+  cbn [sdepth] in Hd. rewrite (sdepth_block then_), (sdepth_block else_) in Hd.
+  assert (Hb : forall l, (ldepth l < n)%nat -> forallb (op_ok env) l = true -> existsb stmt_empty_if (remove_kind k l) = false ->
+                         forallb (op_ok env) (remove_kind k l) = true).
+  { induction l as [|x l IHl]; intros Hl Hf Hx; [reflexivity|]. unfold ldepth in Hl. cbn [fold_right] in Hl. fold (ldepth l) in Hl.
+    cbn [forallb remove_kind] in *. apply andb_true_iff in Hf as [Hf1 Hf2]. rewrite existsb_app in Hx. apply orb_false_iff in Hx as [Hx1 Hx2].
+    rewrite forallb_app. rewrite (IH x env) by (auto; lia). now rewrite IHl by (auto; lia). }
+  cbn [forallb op_ok]. rewrite !op_ok_block, andb_true_r.
+  rewrite !empty_if_block in He.
+  assert (He1 : existsb stmt_empty_if (remove_kind k then_) = false /\ existsb stmt_empty_if (remove_kind k else_) = false /\ remove_kind k then_ <> []).
+  { destruct (remove_kind k then_) as [|y t']; [discriminate He|]. apply orb_false_iff in He as [He1 He2]. repeat split; auto; discriminate. }
+  destruct He1 as (He1 & He2 & Hne').
+  rewrite Hok, (Hb then_ ltac:(lia) Ht He1), (Hb else_ ltac:(lia) Hel He2).
+  destruct (remove_kind k then_); [congruence|reflexivity].
+Qed.
+
+Lemma rk_program k l : forall env env2, same_regs env env2 -> (k = KIncl \/ e_inc env2 = e_inc env) ->
+  wf_flat env l = true -> has_empty_if (remove_kind k l) = false -> wf_flat env2 (remove_kind k l) = true.
+Proof.
+  induction l as [|stm l IH]; intros env env2 Sr I H He; [reflexivity|]. cbn [wf_flat remove_kind] in *.
+  destruct (top_step env stm) as [env'|] eqn:Es; [|discriminate].
+  unfold has_empty_if in He. rewrite existsb_app in He. apply orb_false_iff in He as [He1 He2].
+  destruct (top_step_op env stm env' Es) as [(Et & Ho & ->)|(Ho & _)].
+  - (* an operation *)
+    pose proof (rk_op_ok k (S (sdepth stm)) stm env (Nat.lt_succ_diag_r _) Ho He1) as Hr.
+    assert (Hw : forall l0, forallb (op_ok env) l0 = true -> wf_flat env2 (l0 ++ remove_kind k l) = true).
+    { induction l0 as [|x l0 IHl0]; intros Hf; [cbn [app]; now apply (IH env env2)|].
+      cbn [forallb] in Hf. apply andb_true_iff in Hf as [Hx Hf]. cbn [app wf_flat].
+      assert (top_step env2 x = Some env2) as ->; [|now apply IHl0].
+      rewrite (op_ok_ext (S (sdepth x)) x env env2 (Nat.lt_succ_diag_r _) Sr) in Hx.
+      destruct x; try (exfalso; cbn [op_ok] in Hx; discriminate Hx); cbn [top_step]; now rewrite Hx. }
+    now apply Hw.
+  - (* an include or a declaration *)
+    destruct Sr as [Sq Sc].
+    destruct stm; cbn [top_step] in Es; try (rewrite Ho in Es; discriminate Es).
+    + (* include *)
+      destruct (smem file (e_inc env)) eqn:Ef; [discriminate|]. inversion Es; subst env'. destruct k; cbn [rk is_kind app wf_flat top_step].
+      * destruct I as [I|I]; [discriminate|]. rewrite I, Ef.
+        apply (IH (mkEnv (e_q env) (e_c env) (file :: e_inc env)) (mkEnv (e_q env2) (e_c env2) (file :: e_inc env)));
+          [split; assumption|right; reflexivity|exact H|exact He2].
+      * destruct I as [I|I]; [discriminate|]. rewrite I, Ef.
+        apply (IH (mkEnv (e_q env) (e_c env) (file :: e_inc env)) (mkEnv (e_q env2) (e_c env2) (file :: e_inc env)));
+          [split; assumption|right; reflexivity|exact H|exact He2].
+      * apply (IH (mkEnv (e_q env) (e_c env) (file :: e_inc env)) env2); [split; assumption|now left|exact H|exact He2].
+    + (* qubit declaration *)
+      destruct size as [e|]; [|rewrite Ho in Es; discriminate]. destruct e; try (rewrite Ho in Es; discriminate). destruct v; try (rewrite Ho in Es; discriminate).
+      destruct (fresh_name env name && (1 <=? z) && (z <? 100000)) eqn:Ec; [|discriminate]. inversion Es; subst env'.
+      assert (rk k (SQubitDecl name (Some (ELit (VInt z)))) = [SQubitDecl name (Some (ELit (VInt z)))]) as -> by (destruct k; reflexivity).
+      cbn [app wf_flat top_step]. unfold fresh_name in *. rewrite <- Sq, <- Sc, Ec.
+      apply (IH (mkEnv (sset name z (e_q env)) (e_c env) (e_inc env)) (mkEnv (sset name z (e_q env)) (e_c env) (e_inc env2)));
+        [split; reflexivity|destruct I as [I|I]; [now left|right; exact I]|exact H|exact He2].
+    + (* bit declaration *)
+      destruct t; try (rewrite Ho in Es; discriminate). destruct size as [e|]; [|rewrite Ho in Es; discriminate].
+      destruct e; try (rewrite Ho in Es; discriminate). destruct v; try (rewrite Ho in Es; discriminate).
+      destruct (fresh_name env name && (1 <=? z) && (z <? 100000) && bit_init_ok init) eqn:Ec; [|discriminate]. inversion Es; subst env'.
+      assert (rk k (SClassicalDecl (TBit (Some (ELit (VInt z)))) name init) = [SClassicalDecl (TBit (Some (ELit (VInt z)))) name init]) as -> by (destruct k; reflexivity).
+      cbn [app wf_flat top_step]. unfold fresh_name in *. rewrite <- Sq, <- Sc, Ec.
+      apply (IH (mkEnv (e_q env) (sset name z (e_c env)) (e_inc env)) (mkEnv (e_q env) (sset name z (e_c env)) (e_inc env2)));
+        [split; reflexivity|destruct I as [I|I]; [now left|right; exact I]|exact H|exact He2].
+Qed.
+
+Theorem removal_keeps_wellformed k p :
+  wf_flat env0 p = true -> has_empty_if (remove_kind k p) = false -> wf_flat env0 (remove_kind k p) = true.
+Proof. intros H He. apply (rk_program k p env0 env0); [split; reflexivity|now right|exact H|exact He]. Qed.
+
+Theorem removal_result_is_valid_and_stable fuel k p :
+  wf_flat env0 p = true -> has_empty_if (remove_kind k p) = false -> (ldepth (remove_kind k p) < fuel)%nat ->
+  (exists o, run_visit false true [] fuel (remove_kind k p) = Ok o) /\
+  (exists o, run_visit false false [] fuel (remove_kind k p) = Ok o /\ o_stmts o = remove_kind k p).
+Proof.
+  intros H He Hf. destruct (wf_flat_is_accepted_and_a_fixpoint fuel (remove_kind k p) (removal_keeps_wellformed k p H He) Hf)
+    as [(o1 & E1 & _) (o2 & E2 & Ho & _)].
+  split; [exists o1; exact E1|exists o2; split; assumption].
+Qed.
